@@ -89,7 +89,12 @@ func (s *occServer) GetState(ctx context.Context, _ *pb.GetStateRequest) (*pb.Ge
 	if s.nget == 1 {
 		s.log.emit(map[string]interface{}{"ev": "Occ", "rpc": "GetState", "st": s.state})
 	}
-	return &pb.GetStateReply{State: s.state, Pid: int32(os.Getpid())}, nil
+	reply := &pb.GetStateReply{State: s.state, Pid: int32(os.Getpid())}
+	if s.beh == "midstate" && s.state == "IDLE" {
+		// the executor has now seen it IDLE (and will report TASK_RUNNING): from here on it is in an intermediate state
+		s.state = "BINDING"
+	}
+	return reply, nil
 }
 
 func (s *occServer) Transition(ctx context.Context, r *pb.TransitionRequest) (*pb.TransitionReply, error) {
@@ -130,11 +135,6 @@ func (s *occServer) Transition(ctx context.Context, r *pb.TransitionRequest) (*p
 }
 
 func (s *occServer) EventStream(_ *pb.EventStreamRequest, srv pb.Occ_EventStreamServer) error {
-	if s.beh == "midstate" { // the executor has seen IDLE and is about to report TASK_RUNNING
-		s.mu.Lock()
-		s.state = "BINDING"
-		s.mu.Unlock()
-	}
 	select {
 	case <-srv.Context().Done():
 	case <-s.stopping:
